@@ -94,6 +94,8 @@ def run(ctx):
     for hi in range(N):
         ids = [1, 2, 3]
         tcalls = type_calls(T, rnd, ids)
+        # few methods per history so that identical and near-identical (prefix-related) requests recur
+        tcalls = rnd.sample(tcalls, min(len(tcalls), rnd.choice([1, 2, 4])))
         start = rnd.choice([None, None, 1, 9, 1000, 4000000000])
         implicit_only = rnd.random() < 0.5
         calls = []
@@ -101,6 +103,17 @@ def run(ctx):
             r = rnd.random()
             if r < 0.6:
                 name, args = rnd.choice(tcalls)
+                args = list(args)
+                # vary one argument: drop/extend a list (operand lists that are prefixes of one another), flip an optional
+                if rnd.random() < 0.5:
+                    j = rnd.randrange(len(args)) if args else None
+                    if j is not None and args[j] is not None:
+                        if "," in args[j] and rnd.random() < 0.5:
+                            args[j] = args[j].rsplit(",", 1)[0]
+                        elif args[j] == "-":
+                            args[j] = rnd.choice(["-", "1", "2"])
+                        elif args[j].replace(",", "").isdigit() and rnd.random() < 0.5:
+                            args[j] = rnd.choice([args[j] + ",3", "-" if "," in args[j] else args[j], str(rnd.choice(ids))])
                 a2 = [("-" if (implicit_only or rnd.random() < 0.7) else str(rnd.choice([50, 51, 2]))) if a is None else a for a in args]
                 calls.append(name + "".join("/" + a for a in a2))
             elif r < 0.7:
